@@ -1003,6 +1003,19 @@ class Interp:
             raise Unsupported(e, "constructor call")
         if isinstance(f, BoundMethod):
             return self.call_method(f, args, kwargs, e)
+        if isinstance(f, Opaque) and f.tag.startswith("module:itertools.") and not kwargs:
+            import itertools as _it
+            fname = f.tag.split(".", 1)[1]
+            seqs = [_concrete_seq(a) for a in args]
+            if fname in ("product", "chain") and all(q is not None for q in seqs):
+                if fname == "product":
+                    return IterV([TupleV(list(t)) for t in _it.product(*seqs)])
+                return IterV([x for q in seqs for x in q])
+            if fname in ("combinations", "permutations") and len(args) == 2 and seqs[0] is not None and isinstance(args[1], Const):
+                return IterV([TupleV(list(t)) for t in getattr(_it, fname)(seqs[0], args[1].v)])
+        if isinstance(f, Opaque) and f.tag in ("module:copy.copy", "module:copy.deepcopy") and len(args) == 1 and \
+                isinstance(args[0], (Const, NodeV, Int, TupleV)):
+            return args[0]
         if isinstance(f, LambdaV):
             a = f.node.args
             names = [x.arg for x in a.args]
